@@ -2,6 +2,7 @@ package sim
 
 import (
 	"berty.tech/go-orbit-db/accesscontroller"
+	"context"
 	"fmt"
 	"sort"
 	"strings"
@@ -417,6 +418,62 @@ func scenC14(k *K) {
 			}
 			k.StopPeer(z)
 		}
+	}
+	// the open-or-create helpers (Log, KeyValue, Docs) called at the same time with one options
+	// value: each must come back with a store of its own type
+	if k.C.Chance(1, 3) {
+		z := peers[k.C.Intn(np)]
+		shared := &orbitdb.CreateDBOptions{}
+		type hres struct {
+			typ string
+			st  iface.Store
+		}
+		calls := []struct {
+			name string
+			f    func(ctx context.Context) (iface.Store, error)
+		}{
+			{"eventlog", func(ctx context.Context) (iface.Store, error) { return z.DB.Log(ctx, "helper-log", shared) }},
+			{"keyvalue", func(ctx context.Context) (iface.Store, error) { return z.DB.KeyValue(ctx, "helper-kv", shared) }},
+			{"docstore", func(ctx context.Context) (iface.Store, error) { return z.DB.Docs(ctx, "helper-docs", shared) }},
+		}
+		var ops []*Op
+		var typs []string
+		for _, i := range k.C.Perm(3)[:k.C.Range(2, 3)] {
+			cl := calls[i]
+			typs = append(typs, cl.name)
+			ops = append(ops, k.Go(z.Node.Idx, "helper "+cl.name, func() (interface{}, error) {
+				ctx, cancel := OpCtx(time.Minute)
+				defer cancel()
+				st, err := cl.f(ctx)
+				if err != nil {
+					return nil, err
+				}
+				return &hres{cl.name, st}, nil
+			}))
+		}
+		k.Wait()
+		for j := 0; j < 200; j++ {
+			done := true
+			for _, o := range ops {
+				done = done && k.IsDone(o)
+			}
+			if done {
+				break
+			}
+			k.Step()
+		}
+		for i, o := range ops {
+			if !k.IsDone(o) {
+				k.Failf("C14/helper-hang", "%s helper did not return", typs[i])
+			}
+			if o.Err != nil {
+				k.Failf("C14/helper-error", "the %s helper, called at the same time as the others with one options value, failed: %v", typs[i], o.Err)
+			}
+			if r := o.Val.(*hres); r.st.Type() != r.typ {
+				k.Failf("C14/type-differs", "the %s helper returned a store of type %s", r.typ, r.st.Type())
+			}
+		}
+		k.W.Stat("helpers-called-together-with-one-options-value")
 	}
 	// one options value (access-controller parameters given, no write list) used by two peers
 	// one after the other: each creator's own id is the default, so each gets its own
